@@ -3,7 +3,7 @@ Driver for C10.  One request per line, `k=v` fields separated by single spaces:
   op=ctor  T=<xsd type> V=<10|11|none> S=<code points, comma separated, `_` = empty>
   op=valid T=<xsd type> S=<…>
   op=canon T=<integer type|decimal|boolean> (I=<int> | S=<lexical form> | B=<0|1>)
-  op=tz S=<timezone text>   op=tzcanon M=<minutes>
+  op=tz S=<timezone text>   op=tzcanon M=<minutes>   op=dur K=<duration|yearMonthDuration|dayTimeDuration> S=<cps>
   op=hexenc|b64enc Y=<octets, comma separated, `_` = empty>
   op=hex2b64|b642hex S=<stored value>
   op=cast  V=<10|11> K=<str|untyped|bool|int|dec|dbl> (S=<cps> | B=<0|1> | I=<int> | X=<nan|inf|-inf|neg:n:k> R=<repr cps>)
@@ -295,6 +295,30 @@ def answer (line : String) : String :=
         | none => out "ERR" "ERR" (showNats (XSD.b64Octets s)) ""
     | none => "bad-string"
   else if op == "cast" then castAnswer fs
+  else if op == "dur" then
+    match parseCPs (field fs "S") with
+    | some s =>
+      let kname := field fs "K"
+      let k : Lex.DurKind := if kname == "yearMonthDuration" then .yearMonth
+        else if kname == "dayTimeDuration" then .dayTime else .duration
+      let m := match Lex.durCtor k s with
+        | .ok (mo, us) => s!"ok:{mo}:{us}"
+        | .error .value => "ERR:V"
+        | .error .overflow => "ERR:O"
+      let c := XSD.wsCollapse s
+      let kindOk : Bool :=
+        if kname == "yearMonthDuration" then !c.contains 'D' && !c.contains 'T'
+        else if kname == "dayTimeDuration" then
+          !c.contains 'Y' && !((XSD.splitAt (· == 'T') c).1.contains 'M')
+        else true
+      let sp := match XSD.durationVal? c with
+        | some (mo, v) =>
+          if !kindOk then "ERR:V"
+          else if v.scale ≤ 6 then s!"ok:{mo}:{v.num * 10 ^ (6 - v.scale)}"
+          else s!"ok:{mo}:~"          -- more than microseconds: the implementation rounds (quantize)
+        | none => "ERR:V"
+      out m m sp ""
+    | none => "bad-string"
   else if op == "tz" then
     match parseCPs (field fs "S") with
     | some s =>
